@@ -63,6 +63,15 @@ def main():
         print("REPLAY " + json.dumps({"reproduced": True,
                                       "outcome": f"{type(e).__name__}: {e} @ {where} args={call}"}))
         return
+    except (KeyboardInterrupt, SystemExit):
+        raise
+    except BaseException as e:
+        # something that is not an ordinary Exception escaped from the code under test
+        tb = traceback.extract_tb(e.__traceback__)
+        where = f"{os.path.basename(tb[-1].filename)}:{tb[-1].lineno}" if tb else "?"
+        print("REPLAY " + json.dumps({"reproduced": True,
+                                      "outcome": f"NON-EXCEPTION ESCAPED {type(e).__name__}: {e} @ {where} args={call}"}))
+        return
     print("REPLAY " + json.dumps({"reproduced": False, "outcome": "harness completed normally for " + call}))
 
 
